@@ -152,7 +152,7 @@ def apply_standard(spec, ctx, res, srv, cache, action, model, replay):
         rep = srv.call({"op": "remove_opts_sync" if sync else "remove_opts", "cache": cache, "key": key, "fully": True})
         res["transitions"] += 1
         e = model.index.get(key)
-        if e is not None and e["integrity"] in model.content:
+        if e is not None:
             if "ok" not in rep:
                 bad("remove_fully/%s:%s" % (side, classify(rep)), "remove_fully(%r) of a live entry failed: %s" % (key, _short(rep)), rep)
                 return rep
